@@ -275,6 +275,57 @@ func c16RunPlace(op string) eng.Result {
 			}
 		}
 	}
+	if op == "=" {
+		c16BothWhens(&res, ss)
+	}
 	res.Outcomes = []string{"place" + op}
 	return res
+}
+
+// c16BothWhens: a node that states a when of its own and gets another one from the uses or the
+// augment that adds it is there only when both hold (RFC 7950 7.21.5).
+func c16BothWhens(res *eng.Result, ss *sigSet) {
+	text := `module wb { namespace "urn:wb"; prefix wb; revision 0;
+  container u { leaf uz { type int32; } leaf keep { type string; }
+    uses g { when "uz>5"; } }
+  grouping g { leaf gu { when "uz<20"; type string; } container gc { when "../uz<20"; leaf q { type string; } } }
+  container t { leaf tz { type int32; } }
+  augment "/t" { when "tz>5"; leaf au { when "tz<20"; type string; } container ac { when "../tz<20"; leaf q { type string; } } }
+}`
+	m := model.LoadText(text)
+	for _, p := range []c16Place{
+		{"uses/leaf-member-with-own-when", "u/gu", "u/uz", "u/keep"},
+		{"uses/container-member-with-own-when", "u/gc", "u/uz", "u/keep"},
+		{"augment/leaf-member-with-own-when", "t/au", "t/tz", "t/tz"},
+		{"augment/container-member-with-own-when", "t/ac", "t/tz", "t/tz"},
+	} {
+		for _, ov := range []int{3, 10, 25} {
+			truth := ov > 5 && ov < 20
+			class := map[int]string{3: "outer-false", 10: "both-true", 25: "own-false"}[ov]
+			t := model.NewTree()
+			c16Put(t, p.operand, val.Int32(ov), "leaf")
+			kind := "leaf"
+			if strings.HasSuffix(p.guarded, "c") {
+				kind = "container"
+			}
+			c16Put(t, p.guarded, val.String("gg"), kind)
+			got := model.NewTree()
+			var err error
+			fr, msg, pan := eng.Recover(func() {
+				err = node.NewBrowser(m, store.NewRef(t).Node()).Root().UpsertInto(store.ContainerNode(got))
+			})
+			res.Evals++
+			res.Nontriv++
+			site := fmt.Sprintf("C16/place/%s/%s", p.name, class)
+			desc := fmt.Sprintf("own when and handed-down when at %s, operand %d", p.guarded, ov)
+			switch {
+			case pan:
+				ss.add(site+"/read/panic:"+fr, desc+": "+msg)
+			case err != nil:
+				ss.add(site+"/read/error-aborts-read", desc+": "+err.Error())
+			case c16Has(got, p.guarded) != truth:
+				ss.add(site+fmt.Sprintf("/read/visible-%v-want-%v", c16Has(got, p.guarded), truth), desc+fmt.Sprintf("; read gives %s", got))
+			}
+		}
+	}
 }
